@@ -932,8 +932,23 @@ class Variable(CanBehaveLikeAVariable[T]):
             yield from self._yield_from_cache_or_instantiate_new_values_(sources)
 
     def _generate_combinations_for_child_vars_values_(self, sources: Optional[Dict[int, HashedValue]] = None):
-        kwargs_generators = {k: v._evaluate__(sources) for k, v in self._child_vars_.items()}
-        yield from generate_combinations(kwargs_generators)
+        yield from self._bind_child_vars_(list(self._child_vars_.items()), sources or {}, {})
+
+    def _bind_child_vars_(self, child_vars: List[Tuple[str, SymbolicExpression]], bindings: Dict[int, HashedValue],
+                          kwargs: Dict[str, Dict[int, HashedValue]]) -> Iterable[Dict[str, Dict[int, HashedValue]]]:
+        """
+        Evaluate the argument expressions one after the other, each under the bindings made by the ones before it, so
+        that arguments over the same variable (e.g. ``T(a=x, b=x.k)``) take their values from the same binding of that
+        variable, while arguments over unrelated variables are combined freely.
+        """
+        if not child_vars:
+            yield kwargs
+            return
+        (name, var), remaining = child_vars[0], child_vars[1:]
+        for val in var._evaluate__(copy(bindings)):
+            new_bindings = copy(bindings)
+            new_bindings.update({k: v for k, v in val.items() if k not in bindings})
+            yield from self._bind_child_vars_(remaining, new_bindings, {**kwargs, name: val})
 
     def _yield_from_cache_or_instantiate_new_values_(self, sources: Optional[Dict[int, HashedValue]] = None,
                                                      kwargs: Dict[str, Dict[int, HashedValue]] = None):
